@@ -60,6 +60,7 @@ struct SpawnRec {
   int reap_status = -1;
   std::string output;               // bytes the child wrote to its pipe / tty
   std::map<std::string, std::pair<std::string, int64_t>> pre_outs;  // output state when the command started
+  std::map<std::string, int64_t> in_mtime_at_start;                  // C03: effective inputs -> mtime when the command started
   bool killed = false;
   bool deps_kind_depfile = false;
   std::string depfile;
@@ -160,6 +161,20 @@ struct World : SpawnHandler {
 
   InvRecord RunInvocation(const InvPlan& plan);
   ChildPlan OnSpawn(Kernel& kk, const std::string& cmd, bool console) override;
+
+  // ---- C03: make-semantics model of what a build has to run
+  struct CleanState {                       // taken when a statement last completed successfully and was recorded
+    uint64_t cmd_hash = 0;
+    std::map<std::string, int64_t> in_mtime;    // every non-order-only input (through phony aliases) -> mtime when the command started
+    std::map<std::string, int64_t> out_mtime;   // outputs (and a plain depfile) -> mtime after it finished
+  };
+  std::map<int, CleanState> clean_state;
+  std::set<int> expected_run;               // computed before an invocation
+  bool expected_valid = false;
+  std::vector<std::string> EffectiveInputs(int stmt) const;   // non-order-only inputs, aliases resolved, discovered ones included
+  void ComputeExpectedRun(const InvPlan& p);
+  void UpdateCleanState(const InvRecord& r);
+  void CheckMinimality(const InvRecord& r);
 
   // oracles (oracles.cc)
   void CheckAll(InvRecord& r);
